@@ -13,11 +13,12 @@ const char *g_b32_str;     /* the input string object */
 size_t g_b32_len;          /* its length (fixed during the call) */
 size_t g_b32_calls;        /* characters consumed so far */
 spec_b32_dec g_b32;        /* reference machine */
+size_t g_b32_wbit;         /* witness bit position, chosen by the harness before the call, never written afterwards */
 
 int toupper(int c) {
 	__CPROVER_assert(g_b32_calls < g_b32_len, "protocol: no character is looked at beyond the string");
 	__CPROVER_assert(c == (int)g_b32_str[g_b32_calls], "protocol: characters are taken in order, each once");
-	spec_b32_dec_step(&g_b32, c);
+	spec_b32_dec_step(&g_b32, c, g_b32_wbit);
 	g_b32_calls++;
 	return (c >= 'a' && c <= 'z') ? c - ('a' - 'A') : c;
 }
